@@ -75,6 +75,7 @@ func typeID(t types.Type) string {
 	if t == nil {
 		return ""
 	}
+	t = types.Unalias(t)
 	id := types.TypeString(t, nil)
 	if _, ok := out.Types[id]; ok {
 		return id
